@@ -21,6 +21,11 @@ if [ "${1:-all}" = "all" ] || [ "${1:-}" = "C05" ] || [ "${1:-}" = "C18" ] || [ 
   bin/vinstr -repo $REPO -out _scratch/ov-sched -mode sched
   go build $MODFLAG -tags verif -overlay _scratch/ov-sched/overlay.json -o bin/vsched ./cmd/vcheck
 fi
+if [ "${1:-all}" = "all" ] || [ "${1:-}" = "C05" ]; then
+  # C05's reader-level scenario: the finer instrumentation without the race detector
+  bin/vinstr -repo $REPO -out _scratch/ov-schedfine -mode schedfine
+  go build $MODFLAG -tags verif -overlay _scratch/ov-schedfine/overlay.json -o bin/vschedfine ./cmd/vcheck
+fi
 if [ "${1:-all}" = "all" ] || [ "${1:-}" = "C18" ]; then
   go build $MODFLAG -race -tags verif -overlay _scratch/ov-sched/overlay.json -o bin/vsched-race ./cmd/vcheck
   bin/vinstr -repo $REPO -out _scratch/ov-schedfine -mode schedfine
